@@ -25,7 +25,7 @@ class ExpressionParser(SubParser):
         return True
 
     def _atom(self) -> bool:
-        if str(self.current_token) == '(':
+        if self.current_token.is_mark('('):
             self.next_token()
             if not self.expression():
                 return False
@@ -33,8 +33,8 @@ class ExpressionParser(SubParser):
                 return self.token_error('Unmatched parenthesis: {}')
             return self.next_token()
 
-        uminus = str(self.current_token) == '-'
-        if str(self.current_token) in '+-':
+        uminus = self.current_token.is_mark('-')
+        if self.current_token.is_mark('+', '-'):
             self.next_token()
             if not self._atom():
                 return False
